@@ -4,6 +4,7 @@
  * only once: one 64 MiB block of valid base64 mapped 65 times back to back (copy-on-write), followed by a different tail
  * that ends in padding; the 3 GiB of output are real. Every output byte is compared with the decoding of the block;
  * then one character beyond the 4 GiB mark is made illegal and the call must fail.
+ * Third part: aws_decode_utf8 of 2 GiB + 16 bytes in one call (see run_utf8_case).
  * Second part of the case: aws_hex_encode / aws_hex_encode_append_dynamic of 4 GiB + 24 bytes (see run_hex_case).
  * case = one such decode (run once per stage, one process); skipped (counted) when the address space or memory is not there.
  */
@@ -268,16 +269,65 @@ static void run_hex_case(uint64_t c) {
     mon_count("hex_inputs_above_4GiB_encoded", 1);
 }
 
+/* ------------------------------------------------------------------ UTF-8 text of 2 GiB + a few bytes validated in one call
+ * (chunk lengths must not pass through an int). Untouched anonymous memory = U+0000 code points; the text ends in U+00E9
+ * U+20AC. One-piece decoding must report exactly len-3 code points with value sum 0xE9+0x20AC; with a lone 0xFF beyond the
+ * 2 GiB mark, and again with one at offset 7, the text must be refused. */
+static uint64_t s_cp_count, s_cp_sum;
+static int count_cp(uint32_t cp, void *ud) {
+    (void)ud;
+    ++s_cp_count;
+    s_cp_sum += cp;
+    return AWS_OP_SUCCESS;
+}
+static void run_utf8_case(void) {
+    struct mon_rng *r = &mon_case_rng;
+    mon_fp(0x07F8);
+    size_t len = ((size_t)1 << 31) + 16 + (size_t)mon_below(r, 16);
+    uint8_t *text = mmap(NULL, len, PROT_READ | PROT_WRITE, MAP_PRIVATE | MAP_ANONYMOUS | MAP_NORESERVE, -1, 0);
+    if (text == MAP_FAILED) {
+        mon_count("giant_utf8_skipped_no_address_space", 1);
+        return;
+    }
+    static const uint8_t TAILB[5] = {0xC3, 0xA9, 0xE2, 0x82, 0xAC};
+    memcpy(text + len - 5, TAILB, 5);
+    struct aws_utf8_decoder_options opt = {.on_codepoint = count_cp, .user_data = NULL};
+    s_cp_count = s_cp_sum = 0;
+    aws_reset_error();
+    int rc = aws_decode_utf8(aws_byte_cursor_from_array(text, len), &opt);
+    if (rc != AWS_OP_SUCCESS || s_cp_count != len - 3 || s_cp_sum != 0xE9 + 0x20AC) {
+        mon_violation("C05:giant-utf8:decode", "aws_decode_utf8 of %zu bytes of well-formed text in one call: rc=%d (%s), %llu code points reported (expected %zu), value sum %llu (expected %u)",
+                      len, rc, rc ? aws_error_name(aws_last_error()) : "-", (unsigned long long)s_cp_count, len - 3, (unsigned long long)s_cp_sum, 0xE9 + 0x20AC);
+    }
+    size_t bad_at[2] = {((size_t)1 << 31) + 3, 7};
+    for (int k = 0; k < 2; ++k) {
+        text[bad_at[k]] = 0xFF;
+        aws_reset_error();
+        rc = aws_decode_utf8(aws_byte_cursor_from_array(text, len), NULL);
+        if (rc == AWS_OP_SUCCESS) {
+            mon_violation("C05:giant-utf8:accepted-malformed", "text of %zu bytes with a lone 0xFF at offset %zu was accepted by aws_decode_utf8 in one call", len, bad_at[k]);
+        } else if (aws_last_error() != AWS_ERROR_INVALID_UTF8) {
+            mon_violation("C05:giant-utf8:error-code", "malformed giant text refused with error %d", aws_last_error());
+        }
+        text[bad_at[k]] = 0;
+    }
+    munmap(text, len);
+    mon_flag(2);
+    mon_count("utf8_texts_above_2GiB_decoded_in_one_call", 1);
+}
+
 int main(int argc, char **argv) {
     mon_init(argc, argv, "C05");
     aws_common_library_init(aws_default_allocator());
     mon_flag_name(0, "base64_text_above_4GiB_decoded_in_one_call");
     mon_flag_name(1, "hex_input_above_4GiB_encoded_in_one_call");
+    mon_flag_name(2, "utf8_text_above_2GiB_decoded_in_one_call");
     uint64_t c;
     while (mon_next_case(&c)) {
         mon_case_begin(c);
         run_case();
         run_hex_case(c);
+        run_utf8_case();
         mon_case_end(true);
     }
     return mon_finish();
